@@ -2,6 +2,7 @@ package main
 
 import (
 	"context"
+	"encoding/json"
 	"flag"
 	"fmt"
 	"math/rand"
@@ -340,6 +341,7 @@ func ucisched(args []string) {
 	maxus := fs.Int("maxus", 300, "maximum delay in microseconds")
 	path := fs.String("out", "", "output ndjson")
 	only := fs.String("only", "", "directed mode: run only this scenario")
+	scripts := fs.String("scripts", "", "script mode: json file of scenarios")
 	_ = fs.Parse(args)
 	if !verifhook.Enabled {
 		out.Fatalf("built without the verif tag: hooks are compiled out")
@@ -383,7 +385,7 @@ func ucisched(args []string) {
 		lineAt := func() int { return len(s.Lines) }
 		mark := 0
 		flushOut := func() {
-			s.Drain(300 * time.Microsecond)
+			s.DrainNow() // whatever has been sent is in the (buffered) channel: no timer involved
 			for ; mark < lineAt(); mark++ {
 				c.Mark("out", s.Lines[mark])
 			}
@@ -523,6 +525,21 @@ func ucisched(args []string) {
 	}
 
 	switch *mode {
+	case "script": // scenarios projected from TLC-generated behaviours of spec/Uci.tla (lib/simscripts.py)
+		data, err := os.ReadFile(*scripts)
+		if err != nil {
+			out.Fatalf("read %v: %v", *scripts, err)
+		}
+		var list []struct {
+			Name  string  `json:"name"`
+			Steps []stepT `json:"steps"`
+		}
+		if err := json.Unmarshal(data, &list); err != nil {
+			out.Fatalf("parse %v: %v", *scripts, err)
+		}
+		for i, sc := range list {
+			run(sc.Name, sc.Steps, nil, true, ucih.EngineSpec{Name: "stub"}, []int{0, 25, 60}[i%3])
+		}
 	case "directed":
 		for _, d := range directedAll() {
 			if *only == "list" {
